@@ -63,6 +63,9 @@ func c14Expected(j c14Job) [][]string {
 			// fresh engine per query: C13 establishes history independence,
 			// here we do not want to rely on it
 			e2, st2, _ := scen.Build(j.sc.Lists, j.file)
+			if j.sc.ClosedBefore {
+				st2.Close()
+			}
 			exp[ti] = append(exp[ti], e2.Answer(q))
 			st2.Close()
 		}
@@ -85,7 +88,10 @@ func c14Run(j c14Job, obs *c14Obs) sched.RunFn {
 	}
 	return func(s *shim.Sched) func() {
 		e, st, _ := scen.BuildFor(j.sc.Lists, j.file, all)
-		if j.warm {
+		if j.sc.ClosedBefore {
+			st.Close()
+		}
+		if j.warm && !j.sc.ClosedBefore {
 			for _, qs := range j.sc.Threads {
 				for _, q := range qs {
 					e.Answer(q)
